@@ -40,7 +40,7 @@ def run_demo(d, tag):
         cmd = re.sub(r'-o\s+\S+', '-o demo', cmd)
         if '-o demo' not in cmd:
             cmd += ' -o demo'
-        cmd = cmd.split('&&')[0].strip().rstrip('*/ ').strip()
+        cmd = re.split(r'\s{2,}|\s\(|;', cmd.split('&&')[0].strip())[0].rstrip('*/ ').strip()
         r = sh(cmd, cwd=w)
         if r.returncode != 0:
             return {'tag': tag, 'compile_failed': True, 'cmd': cmd, 'stderr': r.stderr[-600:]}
